@@ -249,7 +249,14 @@ static int build(cs_scenario *sc, int fam, vnacal_type_t type, int net,
 		std_push(sc, CSE_SINGLE, 1, p, 0, &r[k]);
 	std_push(sc, CSE_THROUGH, 2, 1, 2, NULL);
 	std_push(sc, CSE_LINE, 2, 1, 2, ln);
-	std_push(sc, CSE_DOUBLE, 2, 1, 2, uu);
+	/* every other case names the two ports of the pair of unknown
+	   reflects in descending order (the same physical connection) */
+	if ((nf + net) & 1) {
+	    int uur[4] = { U2, -1, -1, U1 };
+	    std_push(sc, CSE_DOUBLE, 2, 2, 1, uur);
+	} else {
+	    std_push(sc, CSE_DOUBLE, 2, 1, 2, uu);
+	}
 	unk[(*nunk)++] = U1;
 	unk[(*nunk)++] = U2;
 	break;
